@@ -497,13 +497,15 @@ func (m *Machine) stub(fn *ssa.Function, args []Val) (r Val, ok bool) {
 		return nil, true
 	case "(*sync/atomic.Value).Load":
 		p := args[0].(Ptr)
-		if v, ok := m.atomics[p.obj]; ok {
-			return v, true
+		cur, ok := m.atomics[p.obj]
+		if !ok {
+			cur = Iface{}
 		}
-		return Iface{}, true
+		return m.staleOr(p, cur), true
 	case "(*sync/atomic.Value).Store":
 		p := args[0].(Ptr)
 		m.atomics[p.obj] = args[1]
+		m.published(p, args[1])
 		return nil, true
 	}
 	return nil, false
@@ -692,6 +694,12 @@ func (m *Machine) intrinsic(name string, fn *ssa.Function, args []Val) (Val, boo
 		return Zext(64, t), true
 	case "vfWitness0":
 		return Const(64, 0), true
+	case "vfConcurrency":
+		m.concModel = m.concInt(args[0].(*Term), "concurrency model")
+		if m.concModel != 0 {
+			m.poolMode = 1
+		}
+		return nil, true
 	case "vfUF":
 		m.ufOn[m.strConcrete(args[0].(Str))] = true
 		return nil, true
@@ -1070,9 +1078,10 @@ func (m *Machine) atomicOp(full string, fn *ssa.Function, args []Val, ret *Val) 
 	et := fn.Signature.Params().At(0).Type().Underlying().(*types.Pointer).Elem()
 	switch {
 	case strings.HasPrefix(op, "Load"):
-		*ret = m.Load(p, et)
+		*ret = m.staleOr(p, m.Load(p, et))
 	case strings.HasPrefix(op, "Store"):
 		m.Store(p, et, args[1])
+		m.published(p, args[1])
 		*ret = nil
 	case strings.HasPrefix(op, "Swap"):
 		old := m.Load(p, et)
@@ -1103,4 +1112,107 @@ func (m *Machine) atomicOp(full string, fn *ssa.Function, args []Val, ret *Val) 
 		return false
 	}
 	return true
+}
+
+// ---- environment model for concurrent use (C09): sequential execution under an adversarial environment ----
+//
+//  * stale-cache adversary: a copy-on-write root published with an atomic store may, at the next atomic load, hold ANY
+//    value published earlier on the path (another goroutine stored a map derived from an older snapshot: a lost update),
+//    or the latest one;
+//  * publication immutability: everything reachable from a published value is frozen; a later write to it is what a
+//    concurrent reader would race with;
+//  * adversarial sync.Pool (poolMode 1).
+
+func (m *Machine) published(root Ptr, v Val) {
+	if m.concModel == 0 {
+		return
+	}
+	key := pubKey{root.obj, root.off}
+	m.pubHist[key] = append(m.pubHist[key], v)
+	seen := map[*Obj]bool{}
+	m.freeze(v, seen, 0)
+}
+
+type pubKey struct {
+	o   *Obj
+	off int
+}
+
+func (m *Machine) staleOr(root Ptr, cur Val) Val {
+	if m.concModel == 0 {
+		return cur
+	}
+	h := m.pubHist[pubKey{root.obj, root.off}]
+	for i := len(h) - 2; i >= 0; i-- {
+		if m.branch(m.newEnvNondet(0, "stale")) {
+			m.covers["stale-cache-snapshot-observed"] = true
+			return h[i]
+		}
+	}
+	return cur
+}
+
+func (m *Machine) freeze(v Val, seen map[*Obj]bool, depth int) {
+	if depth > 64 {
+		return
+	}
+	switch x := v.(type) {
+	case Ptr:
+		m.freezeObj(x.obj, seen, depth)
+	case PtrInt:
+		m.freezeObj(x.p.obj, seen, depth)
+	case Str:
+		m.freezeObj(x.p.obj, seen, depth)
+	case Slice:
+		m.freezeObj(x.p.obj, seen, depth)
+	case Iface:
+		if x.t != nil {
+			m.freeze(x.v, seen, depth+1)
+		}
+	case Agg:
+		for _, e := range x {
+			m.freeze(e, seen, depth+1)
+		}
+	case *Closure:
+		if x != nil {
+			for _, e := range x.env {
+				m.freeze(e, seen, depth+1)
+			}
+		}
+	case *MapObj:
+		if x != nil && !seen[x.hdr] {
+			seen[x.hdr] = true
+			if !x.frozen {
+				x.frozen = true
+				m.frozenMaps = append(m.frozenMaps, x)
+			}
+			for _, e := range x.entries {
+				m.freeze(e.k, seen, depth+1)
+				m.freezeObj(e.vobj, seen, depth+1)
+			}
+		}
+	}
+}
+
+func (m *Machine) freezeObj(o *Obj, seen map[*Obj]bool, depth int) {
+	if o == nil || seen[o] {
+		return
+	}
+	seen[o] = true
+	if mo, ok := m.heap.mapOf[o]; ok {
+		m.freeze(mo, seen, depth)
+		return
+	}
+	if strings.HasPrefix(o.name, "global:") || strings.HasPrefix(o.name, "rtype:") {
+		return // package-level variables and type descriptors are not part of the published snapshot
+	}
+	if !o.frozen {
+		o.frozen = true
+		m.frozenObjs = append(m.frozenObjs, o)
+	}
+	for i := 0; i+8 <= len(o.cells); i++ {
+		if c := o.cells[i]; c.ref != nil && c.k == 0 {
+			m.freeze(c.ref.v, seen, depth+1)
+		}
+	}
 }
